@@ -213,6 +213,7 @@ func HarnessC17Builder() {
 	verif.Assume(err == nil)
 	ctx := wCtx{wTracer()}
 	nReq := verif.Param("requests", 2)
+	sameFinder := verif.Bool("same.finder")
 	var wants [2][]int
 	for q := 0; q < nReq; q++ {
 		h := verif.Choose("req.host", verif.Param("hosts", 1))
@@ -224,7 +225,11 @@ func HarnessC17Builder() {
 			verif.Known("KF-C17-zero-version", want.Major == 0 && want.Minor == 0 && want.Patch == 0)
 		}
 		v0 := c17VersionsCalls[h]
-		diags := b.AddRegistrySource(ctx, regs[h], set, wFinder{wNode{0, 0}, q})
+		fk := q
+		if sameFinder {
+			fk = 0 // every request with the same finder object
+		}
+		diags := b.AddRegistrySource(ctx, regs[h], set, wFinder{wNode{0, 0}, fk})
 		verif.Assert("C17-version-list-requested-once-per-package", c17VersionsCalls[h] == 1 && (v0 == 0 || v0 == 1))
 		if !found {
 			verif.Reach("none-allowed")
@@ -274,6 +279,7 @@ func HarnessC17Builder() {
 			p1, e1 := bundle.LocalPathForRegistrySource(regs[h], want)
 			p2, e2 := bundle.LocalPathForRemoteSource(c17Target(want))
 			verif.Assert("C17-registry-source-resolves-to-the-named-address", e1 == nil && e2 == nil && p1 == p2)
+			verif.Assert("C08-resolved-registry-version-can-be-looked-up", e1 == nil && e2 == nil && p1 == p2)
 		}
 		// each selected version's address was asked for exactly once
 		for i, a := range c17Asked[h] {
